@@ -318,7 +318,7 @@ func (p *parser) primary() Expr {
 		case "let":
 			n := p.next()
 			p.expectOp("=")
-			v := p.expr(0)
+			v := p.expr(7) // above the precedence of the membership operator "in"
 			in := p.next()
 			if in.kind != "ident" || in.val != "in" {
 				p.fail("expected 'in' in let")
